@@ -17,19 +17,37 @@ from tools.props import decl_common as dc
 LEVEL = "proof"
 MANIFEST = dict(
     category="proof",
-    text="Lean 4 theorems over a model of declast.check_decl for a library namespace: for every symbol/typemap environment, "
-         "every recursion budget and every token list the parser never ends in an internal Python exception; an accepted list "
-         "leaves nothing but an optional ';'; '=' is always followed by a value; documented declaration forms are accepted. "
-         "Model tied to declast.py on every run by differential correspondence (outcome class and diagnostic text). "
-         "Attribute validation (generate.VerifyAttrs) is modelled too (Model/Attrs.lean): never an internal exception for any "
-         "attribute map and declaration shape, documented illegal combinations rejected by name, documented defaults; tied to "
-         "the real VerifyAttrs on the attribute stream.  YAML shape checks (ast.py) are covered by an implementation-only oracle.",
+    text="Lean 4 theorems over models of the three validation layers. (a) declast: a character-level model of tokenize "
+         "(ordered alternation of token_specification) composed with a model of check_decl for a library namespace: "
+         "tokenize_total / tokenize_concat (every string is consumed completely, never 'Unexpected character'), "
+         "checkDecl_no_crash and parse_no_crash (no internal Python exception for any string / token list, any environment, any "
+         "budget), expression_fuel_suffices (ExprParser's budget suffices for all token lists), parse_consumes_all_partial and "
+         "initializer_needs_value (nothing but an optional ';' is left; '=' needs a value), documented_forms_accepted. (b) "
+         "generate.VerifyAttrs: verifyAttrs_no_crash for all attribute maps (absent/bare/text/int/real/list/false) and "
+         "declaration shapes, illegal_* (each documented illegal combination is a reject whose id names the attribute), "
+         "default_* (documented intent/value/deref/rank defaults). (c) ast.py YAML structure validation (shape layer of "
+         "create_library_from_dictionary, clean_dictionary, add_declarations, LibraryNode language/format checks): "
+         "yamlShape_no_crash for all value trees, shape_* (each shape error is a reject naming the field). All three models are "
+         "tied to the code on every run through the compiled Lean driver (ops parse/parsestr/lex, vattrs, yshape): outcome "
+         "class, diagnostic text or id, normalised attributes. Implementation-only oracles search for internal exceptions, "
+         "silent acceptance (unbalanced text, '=' without value, documented-illegal attribute combinations on boundary values) "
+         "and rejected documented declarations (docs/*.rst, regression/input/*.yaml), and run the command line on non-mapping "
+         "YAML documents.",
     design="3 C17",
-    note="Trusted: Lean kernel; hand-written model validated on generated inputs only; regex tokenisation run by the harness; "
-         "Python's recursion limit (deeply nested parentheses) is outside the model; class scope and class/enum/struct/"
-         "template/namespace statements are 'unmodelled' in Lean and only fuzzed; VerifyAttrs/YAML are oracle-only.",
-    technique="Lean 4 proof (invariant over all parser functions by induction on the recursion budget) + differential "
-              "correspondence + grammar-based fuzzing of the implementation",
+    note="Trusted: Lean kernel; the hand-written models (Model/Lexer.lean, Decl.lean, Attrs.lean, YamlShape.lean) validated on "
+         "generated inputs only; the allowed-attribute lists, token patterns (tokenSpec_is_modelled) and typemap tables are "
+         "regenerated from the tree (Gen/AttrTables.lean, Gen/DeclTables.lean). Modelled, not verified against the engine: "
+         "Python's re semantics for these patterns (\\d on ASCII digits only), int()/float() conversions (supplied by the harness), "
+         "Python's recursion limit (deeply nested parentheses). _partial / not modelled: fuel sufficiency of the declaration "
+         "parser for arbitrary token lists (proved for the expression parser and for canonical lists; the driver reports `fuel` "
+         "distinctly and it is never observed); 'the unconsumed rest is a suffix of the input' is by construction, not a "
+         "theorem; class scope and class/enum/struct/template/namespace statements are `unmodelled` in Lean and only fuzzed; "
+         "the YAML model covers the shape layer only (what add_declaration does with a well-shaped entry, typemap creation and "
+         "node-specific diagnostics are outside it and skipped by the tie); PyYAML's own errors. Open findings: five "
+         "documentation snippets in obsolete syntax are rejected (doc-rejected:*; repairing them is a documentation rewrite).",
+    technique="Lean 4 proof (invariants over all parser / validator functions by induction on the recursion budget or on the value "
+              "tree) + differential correspondence on three driver ops + grammar-based and boundary-value fuzzing of the "
+              "implementation",
 )
 MODULES = ["ShroudVerif.Props.C17"]
 THEOREMS = {
@@ -40,6 +58,20 @@ THEOREMS = {
         "Shroud.Decl.parse_consumes_all_partial",
         "Shroud.Decl.initializer_needs_value",
         "Shroud.Decl.documented_forms_accepted",
+        "Shroud.Lexer.tokenSpec_is_modelled",
+        "Shroud.Lexer.tokenize_total",
+        "Shroud.Lexer.tokenize_concat",
+        "Shroud.Lexer.lexOne_progress",
+        "Shroud.Lexer.checkDecl_no_crash",
+        "Shroud.Yaml.yamlShape_no_crash",
+        "Shroud.Yaml.shapeEntry_no_crash",
+        "Shroud.Yaml.shape_field_must_be_dictionary",
+        "Shroud.Yaml.shape_field_must_be_string",
+        "Shroud.Yaml.shape_declarations_must_be_list",
+        "Shroud.Yaml.shape_entry_must_be_dictionary",
+        "Shroud.Yaml.shape_entry_needs_decl_or_block",
+        "Shroud.Yaml.shape_language",
+        "Shroud.Yaml.shape_copyright",
         "Shroud.Attrs.verifyAttrs_no_crash",
         "Shroud.Attrs.expression_fuel_suffices",
         "Shroud.Attrs.illegal_name_rejected",
@@ -147,16 +179,21 @@ def run(ctx):
     r = common.rng("c17")
     ctx.cov["trusted_base"] = [
         "Lean 4.33.0 kernel; axioms within {propext, Classical.choice, Quot.sound}",
-        "hand-written model Model/Decl.lean + Model/Token.lean, tied by differential correspondence (drv_decl)",
-        "Gen/DeclTables.lean regenerated from the working tree",
-        "regex tokenisation run by the harness; Python recursion limit not modelled",
+        "hand-written models Model/Lexer.lean, Decl.lean, Token.lean, Attrs.lean, YamlShape.lean, tied by differential correspondence (drv_decl)",
+        "Gen/DeclTables.lean (token patterns, typemaps, symbols) and Gen/AttrTables.lean (allowed attribute lists) regenerated from the working tree",
+        "Python re semantics for the token patterns (\\d on ASCII digits), int()/float() conversions supplied by the harness, "
+        "Python recursion limit not modelled",
+        "message-text -> diagnostic-id tables of the harness (c17_vattrs.MSG_IDS, c17_yshape.SHAPE_IDS)",
     ]
     ctx.cov["rule"] = ("corpus + grammar-directed declarations + single-token mutations + random token sequences over the declaration "
-                       "alphabet; all attribute names x value shapes on functions/arguments/variables; malformed YAML shapes; "
+                       "alphabet; character-level strings (valid with random spacing, single-character mutations, random, number-"
+                       "shaped, a few non-ASCII); all attribute names x value shapes on functions/arguments/variables + boundary "
+                       "values of rank x conflicting attributes; malformed YAML shapes; non-mapping YAML documents; "
                        "non-trivial = distinct accepted structures, distinct diagnostics, distinct (attribute, shape, outcome) triples")
     ctx.assumptions += [
         "theorems are about the Lean model; the model is validated against declast.py on generated inputs only",
-        "VerifyAttrs and YAML shape validation are not modelled: implementation-only oracle",
+        "the YAML model is the shape layer only; declaration-specific processing of a well-shaped entry is outside it",
+        "fuel sufficiency of the declaration parser for arbitrary token lists is checked by the tie, not proved",
     ]
     depth = 4 if thorough else 3
     n = 200000 if thorough else 24000
@@ -291,6 +328,52 @@ def run(ctx):
         from tools.props import c17_attrs
         c17_attrs.run_yaml(ctx, thorough)
 
+    def phase_yshape():
+        # ---- tie of the Lean model of the YAML structure validation (driver op `yshape`) on the YAML stream
+        from tools.props import c17_yshape
+        c17_yshape.run_yshape(ctx, thorough, ok)
+
+    def phase_main_documents():
+        # ---- the command line on YAML documents that are not a mapping / are empty / are not YAML
+        import contextlib
+        import io
+        import os
+        import sys
+        from shroud import main as smain
+        docs = {"list": "- a\n- b\n", "scalar": "3\n", "string": "hello\n", "empty": "", "null": "~\n", "nested-list": "- [1, 2]\n",
+                "mapping": "library: t\ndeclarations:\n- decl: void f()\n", "bad-yaml": "a: [1, 2\n", "two-docs": "a: 1\n---\nb: 2\n",
+                "declarations-scalar": "library: t\ndeclarations: 3\n"}
+        tmp = common.scratch()
+        res = {}
+        try:
+            for name, text in docs.items():
+                path = os.path.join(tmp, name + ".yaml")
+                with open(path, "w") as f:
+                    f.write(text)
+                argv = sys.argv
+                sys.argv = ["shroud", "--outdir", tmp, "--logdir", tmp, path]
+                try:
+                    with contextlib.redirect_stdout(io.StringIO()), contextlib.redirect_stderr(io.StringIO()):
+                        smain.main()
+                    res[name] = "ok"
+                except (RuntimeError, SystemExit) as e:
+                    res[name] = "diagnostic:" + type(e).__name__
+                except Exception as e:  # noqa
+                    mod = type(e).__module__ or ""
+                    if mod.startswith("yaml"):
+                        res[name] = "diagnostic:yaml." + type(e).__name__     # PyYAML's own error, not modelled
+                    else:
+                        res[name] = "internal:" + type(e).__name__
+                        ctx.fail("main-document:%s:%s" % (name, type(e).__name__),
+                                 "shroud on a YAML file containing %r raises %s: %s" % (text, type(e).__name__, " ".join(str(e).split())[:100]),
+                                 {"kind": "main-document", "text": text})
+                finally:
+                    sys.argv = argv
+                ctx.count(1)
+        finally:
+            common.rmtree(tmp)
+        ctx.note("main_documents", res)
+
     dc.guarded(ctx, "tie", phase_tie)
     dc.guarded(ctx, "implementation-run", ensure_impl)
     dc.guarded(ctx, "oracle-entry-point", phase_entry_point)
@@ -300,6 +383,8 @@ def run(ctx):
     dc.guarded(ctx, "verifyAttrs-tie", phase_vattrs)
     dc.guarded(ctx, "oracle-attrs", phase_attrs)
     dc.guarded(ctx, "oracle-yaml", phase_yaml)
+    dc.guarded(ctx, "yamlShape-tie", phase_yshape)
+    dc.guarded(ctx, "oracle-main-documents", phase_main_documents)
 
 
 def replay(path):
